@@ -430,20 +430,29 @@ func c09f9body(x *vexp.Ctx) {
 			done[i] = true
 		})
 	}
-	vsched.WaitIdle("senders blocked")
-	blocked := 0
-	for i := range done {
-		if !done[i] {
-			blocked++
+	fault := func() {
+		switch x.P("mode", 0) {
+		case 0:
+			w.b.CloseWrite()
+		case 1:
+			w.b.Break()
+		case 2:
+			w.cli.Close()
 		}
 	}
-	switch x.P("mode", 0) {
-	case 0:
-		w.b.CloseWrite()
-	case 1:
-		w.b.Break()
-	case 2:
-		w.cli.Close()
+	blocked := 0
+	if x.P("conc", 0) == 1 {
+		// the failure arrives WHILE the senders are running into the full queue: a sender may already hold the
+		// queue's wait channel without being parked on it yet
+		vsched.GoNamed("fault", fault)
+	} else {
+		vsched.WaitIdle("senders blocked")
+		for i := range done {
+			if !done[i] {
+				blocked++
+			}
+		}
+		fault()
 	}
 	vsched.Join("client connection closed and every blocked Send returned", func() bool {
 		for _, d := range done {
@@ -475,18 +484,21 @@ func c09f9body(x *vexp.Ctx) {
 func init() {
 	vexp.Register(&vexp.Scenario{
 		Name: "c09.F9.senders-blocked-on-write-queue", Prop: "C09", MaxSteps: 200000,
-		Doc: "1..3 senders (one channel each) blocked on the full connection write queue (64 bytes, 2000-byte messages, peer not reading, send loop stuck inside the socket write); then the peer half-closes / the transport is cut / the connection is closed locally: EVERY blocked Send must return, the connection must close and cancel all channel contexts",
+		Doc: "1..3 senders (one channel each) blocked on the full connection write queue (64 bytes, 2000-byte messages, peer not reading, send loop stuck inside the socket write); then (conc=0) or concurrently with the senders running into the full queue (conc=1) the peer half-closes / the transport is cut / the connection is closed locally: EVERY blocked Send must return, the connection must close and cancel all channel contexts",
 		Bounds: func(thorough bool) vexp.Bounds {
 			if thorough {
-				return vexp.Bounds{P: 1, F: 1, E: 0}
+				return vexp.Bounds{P: 2, F: 1, E: 0}
 			}
-			return vexp.Bounds{P: 0, F: 1, E: 0}
+			return vexp.Bounds{P: 2, F: 0, E: 0} // two preemptions: two senders between "got the wait channel" and "parked"
 		},
 		Configs: func(thorough bool) []map[string]int {
 			var out []map[string]int
 			for n := 1; n <= 3; n++ {
 				for mode := 0; mode < 3; mode++ {
 					out = append(out, map[string]int{"senders": n, "mode": mode})
+					if n == 2 || (thorough && n == 3) {
+						out = append(out, map[string]int{"senders": n, "mode": mode, "conc": 1})
+					}
 				}
 			}
 			return out
